@@ -267,6 +267,11 @@ def validate_rows():
   import numpy as np
 
   bad = []
+  # the degenerate parameter sets make MuJoCo warn ("mixed solref format"): keep that out of MUJOCO_LOG.TXT / stderr
+  try:
+    mujoco.set_mju_user_warning(lambda msg: None)
+  except Exception:
+    pass
   if int(mujoco.mjtDisableBit.mjDSBL_REFSAFE) != REFSAFE_BIT:
     bad.append(f"mjDSBL_REFSAFE is {int(mujoco.mjtDisableBit.mjDSBL_REFSAFE)}, reference assumes {REFSAFE_BIT}")
   n = 0
@@ -294,6 +299,10 @@ def validate_rows():
             ok = _close(r["D"], d.efc_D[i]) and _close(r["aref"], d.efc_aref[i], 1e-7, 1e-7) and _close(r["imp"], d.efc_KBIP[i, 2]) and _close(r["B"], d.efc_KBIP[i, 1]) and _close(kk, d.efc_KBIP[i, 0])
             if not ok:
               bad.append(f"ref_row mismatch solref={sr} solimp={si} refsafe={refsafe} ts={ts} row{i} type{tp}: ref D={r['D']} aref={r['aref']} imp={r['imp']} vs mujoco D={d.efc_D[i]} aref={d.efc_aref[i]} KBIP={d.efc_KBIP[i]}")
+  try:
+    mujoco.set_mju_user_warning(None)
+  except Exception:
+    pass
   return bad, n
 
 
